@@ -24,7 +24,7 @@ from harness import tlc, core
 from harness.tlc import tla
 from harness import replay_socapprox as R      # pure-python helpers only; rsome is imported in workers
 
-FLAGS = dict(QmatFixed=False)      # transcription of the code as it stands (defect #3 not repaired)
+FLAGS = dict(QmatFixed=True)       # transcription of the repaired code (to_socp copies the cone list)
 
 CONFIGS = {
     'quick':    dict(Degrees={4, 5, 6}, MaxSoc=2, MaxExp=3, MaxLin=0),
